@@ -35,7 +35,7 @@ from core import *
 from dataflow import *
 from cfgq import *
 from parsers import *
-from absint import Walker, UNKNOWN
+from absint import Walker, UNKNOWN, show
 import walkers
 
 LEVEL = 'other'
@@ -74,6 +74,8 @@ def run(ctx):
         ctx.guard(wiring.builders, ctx, cfg, fs, 'B.builders', r'(::help$|^info::OptionParser::<T>::(descr|header|footer|usage|version|max_width)$|^Parser::(group_help|with_group_help|custom_usage|hide_usage|hide)$|^params::ParseAny::<T>::metavar$)')
         ctx.guard(order, ctx, cfg, fs)
         ctx.guard(decor, ctx, cfg, fs)
+        ctx.guard(has_help_table, ctx, cfg, fs)
+        ctx.guard(env_values_quoted, ctx, cfg, fs)
         ctx.guard(embedders, ctx, cfg, fs, 'E.embedders')
         import docwalk
         ctx.guard(docwalk.cursor_advance, ctx, cfg, fs, 'C.cursor', r'render_console$|Doc::first_line$')
@@ -82,6 +84,46 @@ def run(ctx):
     # yielding to its own explicit annotation only (translation validation members of C17 that carry doc comments)
     import c17
     ctx.guard(c17.members_agree, ctx, 0, 'D.derive-sections', lambda mod, kind, name: 'docs' in mod or mod in ('b_usage', 'b_group_fallback'))
+
+def has_help_table(ctx, cfg, fs):
+    """inside an adjacent block only items that have help are listed: HelpItem::has_help decides that.  Per variant (walker table):
+    an item variant whose `help` is optional (Option<..>) is listed exactly when its help is Some - no such variant may fall into a
+    catch-all `false` (the `any`/`literal` member of a `-mode MODE` pair would lose its line); markers answer a constant."""
+    b = ctx.look(fs.one(r'meta_help::HelpItem::<.*>::has_help$'))
+    adt = fs.adt('meta_help::HelpItem')
+    for v in adt['variants']:
+        optional_help = any(f['name'] == 'help' and f['ty'].startswith('std::option::Option') for f in v['fields'])
+        w = Walker(b, variant_of={(1, ()): v['name']}, call_model=lambda w_, c, st: ('callres', c.name.split('::')[-1], c.bb))
+        outs = set()
+        for p_ in w.run():
+            if p_.end == 'return':
+                outs.add(show(p_.ret))
+        if optional_help:
+            ok = bool(outs) and all('is_some' in o for o in outs)
+            ctx.ob('H.item-copy', 'has_help:%s' % v['name'], ok, 'has_help(%s) = %s (the variant has an optional help: expected `help.is_some()`)' % (v['name'], sorted(outs)), where=b.where(), cfg=cfg)
+        else:
+            ctx.ob('H.item-copy', 'has_help:%s' % v['name'], bool(outs) and outs <= {'True', 'False'}, 'has_help(%s) = %s (marker: a constant)' % (v['name'], sorted(outs)), where=b.where(), cfg=cfg)
+
+def env_values_quoted(ctx, cfg, fs):
+    """the CURRENT VALUE of an environment variable is the one piece of help text nobody wrote: it is shown Debug-quoted ({:?}), so a
+    newline or a blank line inside it stays `\\n` text and cannot act as a paragraph break in the middle of the item list (the short
+    help stops printing at a paragraph break that is not closed by the end of an inline block)"""
+    b = ctx.look(fs.one(r'^meta_help::write_help_item$'))
+    n = 0; bad = []
+    for s in fmt_sites(b):
+        for (meth, T, op, bb) in s.args:
+            def from_env(rs, depth=0):
+                for r in rs:
+                    if r.kind == 'call' and r.call.is_(r'^std::env::var(_os)?$'):
+                        return True
+                    if r.kind == 'call' and depth < 4 and r.call.args and from_env(provenance(b, r.call.args[0], r.call.bb, 'term', through=None), depth + 1):
+                        return True
+                return False
+            if from_env(provenance(b, op, bb, 'term', through=None)):
+                n += 1
+                if meth != 'new_debug':
+                    bad.append('%s at %s' % (meth, b.where(bb)))
+    ctx.ob('H.item-copy', 'write_help_item:env-value-debug-quoted', n >= 1 and not bad, 'write_help_item formats the value of an environment variable %d time(s), always with {:?}: %s' % (n, bad or 'ok'), where=b.where(), cfg=cfg)
 
 def decor(ctx, cfg, fs):
     """a `[default: ..]` / decoration line is attached to the item it decorates: append_meta pushes HelpItem::DecorSuffix only
